@@ -35,8 +35,8 @@ func genC06(c *Ctx) {
 			continue
 		}
 		for ni, name := range a.MPDs {
-			if !c.Thorough() && ni > 0 {
-				break
+			if !c.Thorough() && ni > 0 && !strings.Contains(name, "thumb") {
+				continue // (the thumbnail AdaptationSet is numbered in every MPD type: always included)
 			}
 			for _, mode := range []string{"n", "tlt", "tln"} {
 				for it := 0; it < c.N(3, 12); it++ {
